@@ -94,6 +94,18 @@ def replay(c, out, fmt):
     sfunc = ScaledImplicitFunc(prob, orig, dt)
     chk("scaled_value_at", eq(sfunc.value_at(it, rho), list(out["FLx"]) + [-out["FLy"]]))
     chk("scaled_active_set", eq(sfunc.compute_active_set(it, rho), mask(out["act"])))
+    # the scaled function's generalised Jacobian is, by its documented definition, lamb times the unscaled one: exactly DL
+    for As, M in out["DL"].items():
+        As = frozenset(As) if not isinstance(As, frozenset) else As
+        d = sfunc.deriv_at(it, rho, active_set=mask(As)).toarray()
+        chk("scaled_deriv_at", eq(d, [list(row) for row in M]))
+    # evaluating derivatives must not disturb the point: everything asked again (cached Jacobian / Hessian included)
+    chk("reeval.aug_lag_deriv_x", eq(it.aug_lag_deriv_x(rho), out["Lx"]))
+    chk("reeval.aug_lag_deriv_xx", eq(it.aug_lag_deriv_xx(rho).toarray(), [list(r) for r in out["Lxx"]]))
+    chk("reeval.value_at", eq(func.value_at(it, rho), [v / lamb for v in out["FLx"]] + [out["FLy"] / lamb]))
+    for As, M in out["DL"].items():
+        As = frozenset(As) if not isinstance(As, frozenset) else As
+        chk("reeval.deriv_at", eq(func.deriv_at(it, rho, active_set=mask(As)).toarray(), [[v / lamb for v in row] for row in M]))
     return errs
 
 
